@@ -65,6 +65,8 @@ def sweeps(tier):
                 for exc in (False, True):
                     k, f = _req_fields(fc, q)
                     cases.append({'t': 'xfer', 'framing': framing, 'kind': k, 'fields': f, 'exception': exc, 'uid': 1})
+                    if q == qs[0]:
+                        cases.append({'t': 'xfer', 'framing': framing, 'kind': k, 'fields': f, 'exception': exc, 'uid': 1, 'after_silence': True})
         for sub in (0, 1, 2, 10, 11, 20, 21):
             cases.append({'t': 'xfer', 'framing': framing, 'kind': 'req:8', 'fields': {'sub': sub, 'data': [3 if sub == 21 else 0]}, 'exception': False, 'uid': 1})
             if sub == 21:
@@ -84,7 +86,9 @@ def _case(draw):
         maxq = {1: 2000, 2: 2000, 3: 125, 4: 125, 5: 1, 6: 1, 15: 1968, 16: 123, 23: 125}[fc]
         k, f = _req_fields(fc, draw(st.one_of(st.integers(1, maxq), st.integers(1, min(maxq, 40)))))
     return {'t': 'xfer', 'framing': draw(st.sampled_from(['rtu', 'ascii', 'binary'])), 'kind': k, 'fields': f,
-            'exception': draw(st.booleans()) and fc != 8, 'uid': draw(st.integers(1, 247))}
+            'exception': draw(st.booleans()) and fc != 8, 'uid': draw(st.integers(1, 247)),
+            # the judged transaction may follow one that the unit did not answer at all (the client remembers such units)
+            'after_silence': draw(st.sampled_from([False, False, True]))}
 
 
 def strategy(tier):
@@ -140,9 +144,12 @@ class ServerPeer(transports.Peer):
         self.uid = uid
         self.exception = exception
         self.replies = []
+        self.silent = False
 
     def on_write(self, conn, data):
         out = []
+        if self.silent:
+            return []
 
         def cb(req):
             if self.exception:
@@ -172,6 +179,13 @@ def _run_xfer(case):
     with transports.World(peer) as w:
         try:
             client = ModbusSerialClient(method=framing, port='/dev/null', timeout=1, baudrate=19200)
+            if case.get('after_silence'):
+                labels.append('after-unanswered-transaction')
+                peer.silent = True
+                client.execute(kinds.build(kind, f, unit=case['uid']))
+                peer.silent = False
+                peer.written[:] = []
+                w.clock.sleep(1.0)
             req = kinds.build(kind, f, unit=case['uid'])
             result = client.execute(req)
         except transports.StepBudgetExceeded as e:
